@@ -32,6 +32,9 @@ Choices random_choices(sim::Rng& r) {
     c.special_shapes = r.chance(0.7);
     c.general_reps = r.chance(0.3);
     c.unit_form = (double)r.below(3);
+    c.shuffle = r.chance(0.5);
+    c.cellname_props = r.chance(0.4);
+    c.layernames = r.chance(0.2);
     return c;
 }
 
@@ -53,6 +56,9 @@ J to_json(const Choices& c) {
     j.set("special_shapes", c.special_shapes);
     j.set("general_reps", c.general_reps);
     j.set("unit_form", c.unit_form);
+    j.set("shuffle", c.shuffle);
+    j.set("cellname_props", c.cellname_props);
+    j.set("layernames", c.layernames);
     return j;
 }
 
@@ -74,6 +80,9 @@ Choices choices_from(const J& j) {
     c.special_shapes = j.getb("special_shapes", true);
     c.general_reps = j.getb("general_reps");
     c.unit_form = j.getd("unit_form");
+    c.shuffle = j.getb("shuffle", true);
+    c.cellname_props = j.getb("cellname_props");
+    c.layernames = j.getb("layernames");
     return c;
 }
 
@@ -240,6 +249,7 @@ struct Enc {
     int64_t v_gw = 0, v_gh = 0, v_hw = 0, v_exts = 0, v_exte = 0, v_radius = 0;
     int v_ctrap = -1;
     std::vector<std::pair<int64_t, int64_t>> v_poly, v_path;
+    std::map<std::string, std::vector<model::MProp>> name_record_props;
 
     Enc(const model::MLib& lib, const Choices& ch) : m(lib), c(ch), rng(ch.seed) {}
 
@@ -901,8 +911,9 @@ struct Enc {
         // POLYGON: any starting vertex, either direction
         {
             size_t n = v.size();
-            size_t start = rng.below(n);
-            bool rev = rng.chance(0.5);
+            bool canonical = rng.chance(0.5);  // identical shapes then give identical point lists (modal reuse)
+            size_t start = canonical ? 0 : rng.below(n);
+            bool rev = canonical ? false : rng.chance(0.5);
             std::vector<std::pair<int64_t, int64_t>> seq;
             for (size_t i = 0; i < n; i++) seq.push_back(v[(start + (rev ? n - i : i)) % n]);
             std::vector<std::pair<int64_t, int64_t>> rel;
@@ -1133,18 +1144,40 @@ struct Enc {
             // modal reset by the CELL record
             px = py = tx = ty = gx = gy = 0;
             absolute = true;
-            W pw;
-            props(pw, cell.props);
-            w.b.insert(w.b.end(), pw.b.begin(), pw.b.end());
+            bool on_name_record = c.cellname_props && c.cell_names == 2 && !cell.props.empty();
+            if (!on_name_record) {
+                W pw;
+                props(pw, cell.props);
+                w.b.insert(w.b.end(), pw.b.begin(), pw.b.end());
+            } else {
+                name_record_props[cell.name] = cell.props;
+            }
             cr.b = w.b;
             out.push_back(cr);
+            if (c.layernames && rng.chance(0.3)) {
+                // LAYERNAME: name, layer interval, datatype interval (types 0..4)
+                Chunk ln;
+                ln.kind = 1;
+                W lw;
+                lw.byte(rng.chance(0.5) ? 11 : 12);
+                lw.str("METAL" + std::to_string(rng.below(9)));
+                for (int k = 0; k < 2; k++) {
+                    uint64_t t = rng.below(5);
+                    lw.uint(t);
+                    if (t == 4) lw.uint(rng.below(50));
+                    if (t > 0) lw.uint(50 + rng.below(50));
+                }
+                ln.b = lw.b;
+                out.push_back(ln);
+            }
             // elements in a seeded order
             std::vector<std::pair<int, size_t>> items;
             for (size_t i = 0; i < cell.polys.size(); i++) items.push_back({0, i});
             for (size_t i = 0; i < cell.paths.size(); i++) items.push_back({1, i});
             for (size_t i = 0; i < cell.labels.size(); i++) items.push_back({2, i});
             for (size_t i = 0; i < cell.refs.size(); i++) items.push_back({3, i});
-            for (size_t i = items.size(); i > 1; i--) std::swap(items[i - 1], items[rng.below(i)]);
+            if (c.shuffle)
+                for (size_t i = items.size(); i > 1; i--) std::swap(items[i - 1], items[rng.below(i)]);
             for (auto& it : items) {
                 switch (it.first) {
                     case 0: polygon(out, cell.polys[it.second]); break;
@@ -1167,6 +1200,12 @@ struct Enc {
                 w.byte(c.explicit_numbers ? id_implicit + 1 : id_implicit);
                 w.str(order[i]);
                 if (c.explicit_numbers) w.uint(final_number(i, 0, table));
+                if (table == 0 && name_record_props.count(order[i])) {
+                    // self-contained PROPERTY records: the table sits after all cells, nothing relies on modal state later
+                    m_pname = false;
+                    m_pvals = false;
+                    props(w, name_record_props[order[i]]);
+                }
                 b.insert(b.end(), w.b.begin(), w.b.end());
             }
             return b;
